@@ -52,7 +52,6 @@ class C08(Spec):
                 cfg['jac'] = None
             if not cpl and cfg['jac'] is None and rng.random() < 0.4:
                 cfg['approx'] = True      # first-level groups become semi-total finite-difference groups
-                cfg['mf'] = False         # (approx groups with matrix-free components: see props/C01/repro_approx_observations.py)
             scaled = []
             for j in range(nvar):
                 if j % 2 == 0:
